@@ -883,7 +883,7 @@ fn execute_inner(ctx: &mut Ctx, lines: &[String]) -> Vec<String> {
                             std::process::abort();
                         }
                     }
-                    g.push(name.to_string());
+                    if !(name.starts_with("sync.") || name.starts_with("async.")) { g.push(name.to_string()); }
                 })));
                 let payload = String::from_utf8(bytes[..bytes.len() - 1].to_vec()).unwrap();
                 let r = with_clock(now, || LogWriter::write(&*w, &mut DeferredNow::new(), &Record::builder().level(log::Level::Info).args(format_args!("{}", payload)).build()));
@@ -1020,7 +1020,12 @@ fn execute_inner(ctx: &mut Ctx, lines: &[String]) -> Vec<String> {
                 if names.is_empty() {
                     "-".into()
                 } else {
-                    names.iter().map(|n| format!("{}:{}", hexs(n), hex(&read_file(&dir.join(n))))).collect::<Vec<_>>().join(" ")
+                    names.iter().map(|n| {
+                        let mut c = read_file(&dir.join(n));
+                        // a .gz that the killed process had not finished holds nothing readable
+                        if h.crashed.is_some() && c.starts_with(b"<corrupt gz>") { c.clear(); }
+                        format!("{}:{}", hexs(n), hex(&c))
+                    }).collect::<Vec<_>>().join(" ")
                 }
             }
             ["READ"] => {
@@ -1075,6 +1080,11 @@ fn execute_inner(ctx: &mut Ctx, lines: &[String]) -> Vec<String> {
     drop(f);
     flexi_logger::verif_hooks::set_virtual_now(None);
     flexi_logger::verif_hooks::set_fault_handler(None);
+    if let Some(c) = CRASH_CHILD.lock().unwrap().as_ref() {
+        // the first life ended without reaching the kill point: hand the creation times over
+        flexi_logger::verif_hooks::set_virtual_now(Some(stamp_to_local(20200101000000)));
+        dump_creation_table(&c.dir, &c.side);
+    }
     if !in_child { let _ = std::fs::remove_dir_all(&dir); }
     if h.rotations > 0 || h.restarts > 0 || (f_via_logger && h.recs.len() > 1) {
         ctx.report.nontrivial_case(lines);
